@@ -1,18 +1,22 @@
 (* C10 -- networked cache with local L1 never serves data another node replaced.
    This file holds only the property theorems, each closed by `exact <lemma>`; the proofs are in
-   Proofs.v (cache, server step, fetch RPC) and Coherence.v (world invariant over all histories).
+   Proofs.v (cache, server step, fetch RPC), Coherence.v (world invariant over all histories), Codec.v (wire
+   format), Effects.v (completed operations take effect), Refine.v (refinement of one shared cache), Link.v (hash
+   step regenerated from the source).
    Model: coq/C10/Defs.v (cache_over_ip + tcp_cache codec + tcp_cache_service::session + mem_cache(limit 0)
    + tcp_connector::hash).  `reachable w` = w is obtained from an initial world (any number of servers, any
    number of clients each with or without L1) by ANY finite sequence of store / fetch / rise / clear /
-   evict / stats / clock tick / raw foreign frame operations by any clients in any order. *)
-From CppcmsV Require Import Base.Tac C10.Defs C10.Proofs C10.Coherence.
+   evict / stats / clock tick / raw foreign frame operations by any clients in any order.
+   `quiet o` = o is a fetch, an L1 eviction or a stats call (operations that only read the servers). *)
+From CppcmsV Require Import Base.Tac Base.CSem C10.Defs C10.Proofs C10.Coherence C10.Codec C10.Effects C10.Refine C10.Placement C10.Link
+  gen.Gen_tcphash.
 Local Open Scope N_scope.
 
-(* 1. fetch_current: in every reachable world a fetch of key k by any client c (with or without L1, with or
+(* ---------------------------------------------------------------------------------------------------------
+   1. fetch_current: in every reachable world a fetch of key k by any client c (with or without L1, with or
       without trigger set requested) answers exactly what the responsible server holds unexpired at that
-      moment: found iff the server finds it, with the server's value and deadline.  Since stores, rises and
-      clears by any node act on that server synchronously, no fetch that starts after such an operation
-      completed can return the older value, even if it still sits in the fetching node's L1. *)
+      moment: found iff the server finds it, with the server's value and deadline - whatever the L1 of the
+      fetching node holds. *)
 Theorem fetch_current : forall w c k tags r w1,
   reachable w -> step w (OFetch c k tags) = (ObsFetch r, w1) -> current w k r.
 Proof. exact fetch_current_reachable. Qed.
@@ -24,13 +28,216 @@ Theorem fetch_changes_no_server : forall w c k tags x w1,
 Proof. exact fetch_keeps_servers. Qed.
 Print Assumptions fetch_changes_no_server.
 
-(* 2. gen_injective: over the whole history, on one server a generation number identifies one store event:
+(* after ANY node completed a store of (k,v,dl) - on the exact domain of the wire format, store_ok - and any
+   number of reads by any nodes, a fetch of k by ANY node returns v with deadline dl (nothing if dl is
+   already past): never the older value, even if it still sits in that node's L1 *)
+Theorem no_older_value_after_store : forall w c k v trg dl w1 h c2 tags r w3,
+  reachable w -> (0 < nsrv w)%nat -> store_ok k v trg dl ->
+  step w (OStore c k v trg dl) = (ObsNone, w1) ->
+  Forall quiet h ->
+  step (snd (run w1 h)) (OFetch c2 k tags) = (ObsFetch r, w3) ->
+  if (dl <? w_now w)%Z then r = None else exists t, r = Some (v, t, dl).
+Proof. exact store_then_fetch. Qed.
+Print Assumptions no_older_value_after_store.
+
+(* after any node completed a rise of trigger t no server holds a record depending on t, and whatever a later
+   fetch by any node returns is a record of the responsible server that does not depend on t *)
+Theorem rise_reaches_every_server : forall w c t w1,
+  step w (ORise c t) = (ObsNone, w1) ->
+  nsrv w1 = nsrv w /\ w_now w1 = w_now w /\
+  forall i s1 k e, nth_error (w_srv w1) i = Some s1 -> In (k, e) (c_items s1) -> smem t (e_trg e) = false.
+Proof. exact rise_takes_effect. Qed.
+Print Assumptions rise_reaches_every_server.
+Theorem no_raised_value_after_rise : forall w c t w1 h c2 k tags v tt dl w3,
+  reachable w -> step w (ORise c t) = (ObsNone, w1) -> Forall quiet h ->
+  step (snd (run w1 h)) (OFetch c2 k tags) = (ObsFetch (Some (v, tt, dl)), w3) ->
+  exists s e, nth_error (w_srv w1) (server_of (nsrv w1) k) = Some s /\ In (k, e) (c_items s) /\
+              smem t (e_trg e) = false /\ v = e_val e /\ dl = e_dl e.
+Proof. exact rise_then_fetch. Qed.
+Print Assumptions no_raised_value_after_rise.
+
+(* after any node completed a clear (and any reads) every fetch by any node finds nothing *)
+Theorem nothing_after_clear : forall w c w1 h c2 k tags r w3,
+  reachable w -> step w (OClear c) = (ObsNone, w1) -> Forall quiet h ->
+  step (snd (run w1 h)) (OFetch c2 k tags) = (ObsFetch r, w3) -> r = None.
+Proof. exact clear_then_fetch. Qed.
+Print Assumptions nothing_after_clear.
+
+(* non-vacuity: two servers, two nodes with L1; node 1 caches v1 in its L1, node 0 replaces it by v2, node 1's
+   L1 still holds v1 and its fetch answers v2 (107 = k, 49/50 = the two values) *)
+Example fetch_current_nonvacuous :
+  let h := [OStore 0 [107] [49] [] 2000; OFetch 1 [107] true; OStore 0 [107] [50] [[116]] 2000] in
+  let w := snd (run (init_world 2 [true; true]) h) in
+  reachable w /\ (0 < nsrv w)%nat /\ store_ok [107] [50] [[116]] 2000 /\
+  (exists l e, nth_error (w_cli w) 1 = Some (Some l) /\ a_find [107] (c_items l) = Some e /\ e_val e = [49]) /\
+  fst (step w (OFetch 1 [107] true)) = ObsFetch (Some ([50], [[107]; [116]], 2000%Z)).
+Proof.
+  cbv zeta. split; [apply run_reachable; constructor|]. split; [vm_compute; lia|]. split.
+  - split; [discriminate|]. split; [|split; [unfold int64; lia|vm_compute; reflexivity]].
+    constructor; [|constructor]. split; [discriminate|]. intros [H|[]]. discriminate H.
+  - split; [|vm_compute; reflexivity]. vm_compute. eexists. eexists. split; [reflexivity|]. split; reflexivity.
+Qed.
+(* non-vacuity for rise and clear: a raised trigger and a clear by node 1 remove what node 0 has in its L1 *)
+Example rise_clear_nonvacuous :
+  let w := snd (run (init_world 2 [true; false]) [OStore 1 [107] [49] [[116]] 2000; OFetch 0 [107] true]) in
+  fst (step w (OFetch 0 [107] true)) = ObsFetch (Some ([49], [[107]; [116]], 2000%Z)) /\
+  fst (step (snd (step w (ORise 1 [116]))) (OFetch 0 [107] true)) = ObsFetch None /\
+  fst (step (snd (step w (OClear 1))) (OFetch 0 [107] true)) = ObsFetch None.
+Proof. vm_compute. repeat split. Qed.
+
+(* ---------------------------------------------------------------------------------------------------------
+   1b. The statement as a refinement.  For every number of servers > 0, every assignment of L1s to any number of
+      nodes, and EVERY history of node operations (client_ok: valid node numbers, no foreign raw frames, every
+      store in the exact domain store_ok of the wire format) - stores, fetches, rises, clears, L1 evictions,
+      stats calls and clock ticks by any nodes in any order - the values and deadlines returned by all fetches
+      are exactly those of ONE mem_cache shared by all nodes executing the same operations (spec_run: no
+      network, no L1).  In particular a fetch never returns a value that a completed store, rise or clear of
+      any node has replaced or removed. *)
+Theorem network_cache_is_one_cache : forall ns l1 h,
+  (0 < ns)%nat -> Forall (client_ok (length l1)) h ->
+  map view_of (fst (run (init_world ns l1) h)) = fst (spec_run (mkS c_empty 1000) h).
+Proof. exact refines. Qed.
+Print Assumptions network_cache_is_one_cache.
+Example one_cache_nonvacuous :
+  let h := [OStore 0 [107] [49] [[116]] 2000; OFetch 1 [107] true; OStore 2 [107] [50] [] 1001; OFetch 1 [107] false;
+            OTick 2; OFetch 1 [107] true; OStore 0 [108] [51] [[116]] 2000; OFetch 2 [108] true; ORise 1 [116];
+            OFetch 0 [108] true] in
+  Forall (client_ok 3) h /\
+  (fst (spec_run (mkS c_empty 1000) h) =
+    [VOther; VFetch (Some ([49], 2000%Z)); VOther; VFetch (Some ([50], 1001%Z)); VOther; VFetch None; VOther;
+     VFetch (Some ([51], 2000%Z)); VOther; VFetch None]) /\
+  (map view_of (fst (run (init_world 2 [true; true; false]) h)) = fst (spec_run (mkS c_empty 1000) h)).
+Proof.
+  cbv zeta. split; [|split; vm_compute; reflexivity].
+  assert (good_name [116]) as G by (split; [discriminate|intros [H|[]]; discriminate H]).
+  repeat constructor; try discriminate; try exact G; try apply G; try (unfold int64; lia); try (vm_compute; reflexivity).
+Qed.
+
+(* ---------------------------------------------------------------------------------------------------------
+   2. gen_injective: over the whole history, on one server a generation number identifies one store event:
       two records with the same generation, the first held (by server i or by any L1 for a key of server i)
       in a reachable world and the second held after any further history h, have the same key, value and
-      deadline. *)
+      deadline.  l1_coherent: hence the handshake "still generation g?" is sound - an L1 record whose
+      generation equals that of the responsible server's current record carries its value and deadline. *)
 Theorem gen_injective : forall w h i k1 e1 k2 e2,
   reachable w ->
   holds w i k1 e1 -> holds (snd (run w h)) i k2 e2 -> e_gen e1 = e_gen e2 ->
   k1 = k2 /\ e_val e1 = e_val e2 /\ e_dl e1 = e_dl e2.
 Proof. exact gen_injective_reachable. Qed.
 Print Assumptions gen_injective.
+Theorem l1_coherent : forall w j l k e s e1,
+  reachable w ->
+  nth_error (w_cli w) j = Some (Some l) -> In (k, e) (c_items l) ->
+  nth_error (w_srv w) (server_of (nsrv w) k) = Some s -> In (k, e1) (c_items s) ->
+  e_gen e = e_gen e1 -> e_val e = e_val e1 /\ e_dl e = e_dl e1.
+Proof. exact l1_coherent_reachable. Qed.
+Print Assumptions l1_coherent.
+Example gen_nonvacuous :
+  let w := snd (run (init_world 1 [true]) [OStore 0 [107] [49] [] 2000; OFetch 0 [107] true; OStore 0 [108] [50] [] 2000]) in
+  exists e1 e2, holds w 0 [107] e1 /\ holds w 0 [108] e2 /\ e_gen e1 = 0 /\ e_gen e2 = 1.
+Proof.
+  cbv zeta. eexists. eexists. split; [|split].
+  - right. exists 0%nat. eexists. split; [vm_compute; reflexivity|]. split; [left; reflexivity|reflexivity].
+  - left. eexists. split; [vm_compute; reflexivity|]. left. reflexivity.
+  - split; reflexivity.
+Qed.
+
+(* ---------------------------------------------------------------------------------------------------------
+   3. codec_roundtrip, on the exact domain.  Header: 40 bytes <-> ten 32-bit fields.  Store: the frame
+      built by tcp_cache::store for key k (non-empty), value v (any bytes, also empty or with NULs), a sorted
+      trigger set of non-empty NUL-free names, deadline in int64, frame shorter than 2^32, is answered `done`
+      and the server's cache stores exactly (k, v, trg, dl).  Fetch: a data answer decodes to the value,
+      trigger set, deadline and generation the server holds (names NUL-free).  Trigger lists: parse(serialise)
+      is the identity; std::set normal form is idempotent.  Outside the domain the faithful model refutes
+      the round trip: the empty name and the empty key are refused, a name containing NUL is split (these
+      are the known finding name-with-nul-or-empty-not-carried, replayed on the implementation). *)
+Theorem header_roundtrip : forall h, hdr_ok h -> hdr_parse (hdr_bytes h) = Some h.
+Proof. exact hdr_roundtrip. Qed.
+Print Assumptions header_roundtrip.
+Theorem store_codec_roundtrip : forall now k v trg dl c,
+  k <> [] -> Forall good_name trg -> ssorted trg -> int64 dl ->
+  lenN (k ++ v ++ enc_trigs trg) < W32 ->
+  srv_handle now (fst (enc_store k v trg dl)) (snd (enc_store k v trg dl)) c =
+    (hdr0 op_done, [], c_store k v trg dl None c).
+Proof. exact store_rpc. Qed.
+Print Assumptions store_codec_roundtrip.
+Theorem fetch_codec_roundtrip : forall now k g want tif c,
+  let rq := enc_fetch k g want tif in
+  let rp := srv_fetch now (fst rq) (snd rq) c in
+  srv_handle now (fst rq) (snd rq) c = (fst rp, snd rp, c) /\
+  dec_fetch tif want (fst rp) (snd rp) = fetch_answer now k g want tif c.
+Proof. exact fetch_rpc. Qed.
+Print Assumptions fetch_codec_roundtrip.
+Theorem fetch_data_unchanged : forall now k g want tif c e,
+  c_fetch now k c = Some e -> (tif && (e_gen e =? g)) = false ->
+  int64 (e_dl e) -> Forall nul_free (e_trg e) ->
+  fetch_answer now k g want tif c = FData (e_val e) (if want then e_trg e else []) (e_dl e) (e_gen e).
+Proof. exact fetch_data_roundtrip. Qed.
+Print Assumptions fetch_data_unchanged.
+Theorem trigger_list_roundtrip : forall t,
+  (Forall good_name t -> load_triggers [] (enc_trigs t) = Some t) /\
+  (Forall nul_free t -> walk_triggers [] (enc_trigs t) = t).
+Proof. intros t. split; [exact (load_enc_trigs t)|exact (walk_enc_trigs t)]. Qed.
+Print Assumptions trigger_list_roundtrip.
+Theorem trigger_set_normal_form : forall l,
+  ssorted (mkset l) /\ mkset (mkset l) = mkset l /\ forall y, In y (mkset l) <-> In y l.
+Proof. intros l. split; [exact (mkset_sorted l)|]. split; [exact (mkset_idem l)|exact (mkset_In l)]. Qed.
+Print Assumptions trigger_set_normal_form.
+Theorem deadline_roundtrip : forall z, int64 z -> z64_of (z64_lo z) (z64_hi z) = z.
+Proof. exact z64_roundtrip. Qed.
+Print Assumptions deadline_roundtrip.
+Theorem codec_roundtrip_refuted_outside_domain :
+  (exists k v trg dl c now,
+     fst (fst (srv_handle now (fst (enc_store k v trg dl)) (snd (enc_store k v trg dl)) c)) = hdr0 op_error /\
+     snd (srv_handle now (fst (enc_store k v trg dl)) (snd (enc_store k v trg dl)) c) = c) /\
+  (exists k v trg dl now,
+     snd (srv_handle now (fst (enc_store k v trg dl)) (snd (enc_store k v trg dl)) c_empty) <>
+     c_store k v trg dl None c_empty) /\
+  (exists v dl now,
+     fst (fst (srv_handle now (fst (enc_store [] v [] dl)) (snd (enc_store [] v [] dl)) c_empty)) = hdr0 op_error).
+Proof. split; [exact store_empty_name_refused|]. split; [exact store_nul_name_split|exact store_empty_key_refused]. Qed.
+Print Assumptions codec_roundtrip_refuted_outside_domain.
+Example codec_nonvacuous :
+  let k := [107; 0; 255] in let v := [0; 0; 118] in let trg := [[116]; [116; 116]; [255; 128]] in
+  k <> [] /\ Forall good_name trg /\ ssorted trg /\ int64 (-5) /\ lenN (k ++ v ++ enc_trigs trg) < W32 /\
+  c_fetch (-10) k (snd (srv_handle 0 (fst (enc_store k v trg (-5))) (snd (enc_store k v trg (-5))) c_empty)) =
+    Some (mkE v (sins k trg) (-5) 0) /\
+  hdr_ok (fst (enc_store k v trg (-5))).
+Proof.
+  cbv zeta. split; [discriminate|]. split.
+  - repeat constructor; try discriminate; intros H; cbn in H; intuition discriminate.
+  - split; [vm_compute; tauto|]. split; [unfold int64; lia|]. split; [vm_compute; reflexivity|].
+    split; [vm_compute; reflexivity|]. vm_compute. repeat split.
+Qed.
+
+(* ---------------------------------------------------------------------------------------------------------
+   4. key_spread_consistent: the server responsible for a key is a function of the key bytes and the number of
+      servers only (server_of is a Gallina function: the same on every node by construction), it is total and
+      below the number of servers; and it is the function the source computes: the loop body of
+      tcp_connector::hash regenerated from the current source equals the model's hash_step on every state and
+      byte, hence the whole fold over the key. *)
+Theorem key_spread_consistent : forall n k, (0 < n)%nat -> (server_of n k < n)%nat.
+Proof. exact server_of_lt. Qed.
+Print Assumptions key_spread_consistent.
+(* in every world reached by operations of the nodes themselves (any nodes, any arguments, also stores the server
+   refuses; no foreign raw frames) a record for key k sits only on server server_of n k *)
+Theorem key_only_on_responsible_server : forall ns l1 h,
+  Forall node_op h ->
+  forall i s k e, nth_error (w_srv (snd (run (init_world ns l1) h))) i = Some s -> In (k, e) (c_items s) ->
+                  i = server_of (length (w_srv (snd (run (init_world ns l1) h)))) k.
+Proof. exact placement. Qed.
+Print Assumptions key_only_on_responsible_server.
+Example placement_nonvacuous :
+  let w := snd (run (init_world 2 [true; false]) [OStore 0 [107] [49] [] 2000; OStore 1 [108] [50] [] 2000]) in
+  map (fun s => map fst (c_items s)) (w_srv w) = [[[108]]; [[107]]].
+Proof. vm_compute. reflexivity. Qed.
+Theorem hash_step_is_source : forall h c, g_hash_step (Z.of_N h) (Z.of_N c) = Z.of_N (hash_step h c).
+Proof. exact link_hash_step. Qed.
+Print Assumptions hash_step_is_source.
+Theorem hash_is_source : forall key, fold_left g_hash_step (map Z.of_N key) g_hash_init = Z.of_N (hash_raw key).
+Proof. exact link_hash_raw. Qed.
+Print Assumptions hash_is_source.
+Example key_spread_nonvacuous :
+  server_of 2 [107] = 1%nat /\ server_of 2 [108] = 0%nat /\ server_of 3 [107] = 2%nat /\
+  hash_raw [255; 255; 255; 255; 255; 255; 255; 255; 255] = 831298521.
+Proof. vm_compute. repeat split. Qed.
